@@ -357,9 +357,29 @@ def run_check(mod, pid, tier, seed, args, workdir, t0):
 
     def for_model(c, impl):
         return json.loads(jdumps(_fm(c, impl), default=str)) if _fm else impl
+
+    def model_differs(c, impl, dec):
+        """observations a harness module could not make through the library's public surface are listed by it under
+        'unobservable' (e.g. the layout of an internal cache tree after an internal rename): they are left out of the
+        comparison with the model (and counted), never guessed"""
+        fm = for_model(c, impl)
+        model = dec.get("model")
+        skip = fm.pop("unobservable", None) if isinstance(fm, dict) else None
+        if skip and isinstance(model, dict):
+            model = {k: v for k, v in model.items() if k not in skip}
+            fm = {k: v for k, v in fm.items() if k not in skip}
+            dist["unobservable=" + ",".join(sorted(skip))] = dist.get("unobservable=" + ",".join(sorted(skip)), 0) + 1
+        return fm != model
     for r in recs:
         c, impl, dec = r["case"], r["impl"], r["dec"]
         h = case_hash(c)
+        if isinstance(impl, dict) and "harness_exception" in impl:
+            # the harness itself failed on this case (e.g. an internal name it walks was renamed): the tie is broken for
+            # this input, but nothing is known about the property - never reported as a failing input
+            n_corr += 1
+            if first_corr is None:
+                first_corr = (c, impl, dec)
+            continue
         try:
             pimpl = json.loads(jdumps(project(c, impl, dec), default=str))
         except Exception as e:
@@ -397,13 +417,13 @@ def run_check(mod, pid, tier, seed, args, workdir, t0):
                 n_viol += 1
                 if first_viol is None:
                     first_viol = (c, impl, dec)
-            elif not dec.get("model_unsupported") and for_model(c, impl) != dec.get("model"):
+            elif not dec.get("model_unsupported") and model_differs(c, impl, dec):
                 n_corr += 1
                 if first_corr is None:
                     first_corr = (c, impl, dec)
         else:
             n_out += 1
-            if for_model(c, impl) != dec.get("model"):
+            if model_differs(c, impl, dec):
                 drift += 1
                 if len(notes) < 3:
                     notes.append({"model_drift_outside_domain": c, "impl": impl, "model": dec.get("model")})
